@@ -6,7 +6,7 @@ Confirmation = (1) demo applies on the clean tree and the whole suite (incl. the
 passes and at least one demo test fails. Then the registered check(s) are run against a scratch copy carrying ONLY the patch."""
 import json, os, re, shutil, subprocess, sys, time
 HERE = os.path.dirname(os.path.dirname(os.path.abspath(__file__)))
-SCR = "/var/tmp/scr"
+SCR = os.environ.get("INGEST_SCR", "/var/tmp/scr")          # one scratch area per concurrent queue
 WT = os.path.join(SCR, "ingest")
 TGT = os.path.join(SCR, "tgt")
 
